@@ -4,9 +4,10 @@ from common import *
 
 RS2V = os.path.join(VERIF, "rs2v")
 GEN = os.path.join(COQ, "Gen")
-FORBIDDEN = re.compile(r"\b(Admitted|admit|Axiom|Axioms|Parameter|Parameters|Conjecture|Hypothesis|"
+FORBIDDEN = re.compile(r"\b(Admitted|admit|Axiom|Axioms|Parameter|Parameters|Conjecture|Conjectures|"
                        r"Unset\s+Guard|bypass_check|Admit\s+Obligations|type-in-type|impredicative-set|"
-                       r"Unset\s+Universe\s+Checking|Unset\s+Positivity)\b")
+                       r"Unset\s+Universe\s+Checking|Unset\s+Positivity)\b|^\s*Abort\s*\.")
+SECTION_ONLY = re.compile(r"^\s*(Variable|Variables|Hypothesis|Hypotheses|Context)\b")
 AX_ALLOW = set()   # Print Assumptions allowlist: empty -- the development uses no axioms
 
 def newest(paths):
@@ -148,8 +149,15 @@ def audit():
     for f in tree_files(COQ, (".v",)):
         txt = strip_comments(open(f).read())
         txt = re.sub(r'"(?:[^"]|"")*"', '""', txt)
+        depth = 0
         for i, l in enumerate(txt.splitlines(), 1):
+            if re.match(r"^\s*Section\b", l):
+                depth += 1
+            elif re.match(r"^\s*End\b", l) and depth > 0:
+                depth -= 1
             if FORBIDDEN.search(l):
-                # `Variable`/`Hypothesis` inside a Section are fine; we simply do not use Hypothesis at all
                 hits.append("%s:%d: %s" % (os.path.relpath(f, COQ), i, l.strip()[:120]))
+            elif SECTION_ONLY.search(l) and depth == 0:
+                # a Variable / Hypothesis outside a section declares an axiom
+                hits.append("%s:%d: outside a section: %s" % (os.path.relpath(f, COQ), i, l.strip()[:120]))
     return hits
